@@ -40,6 +40,7 @@ type memtable struct {
 // Returns:
 //   - *memtable: New memtable instance
 func newMemtable(vecIdx VectorIndex, txtIdx TextIndex, metaIdx MetadataIndex, sizeLimit int64) *memtable {
+	verifPoint("memtable.new", vecIdx, txtIdx, metaIdx)
 	return &memtable{
 		index:     NewHybridSearchIndex(vecIdx, txtIdx, metaIdx),
 		sizeLimit: sizeLimit,
@@ -63,6 +64,7 @@ func (m *memtable) add(vector []float32, text string, metadata map[string]interf
 		return 0, fmt.Errorf("memtable is frozen")
 	}
 
+	verifPoint("memtable.add.prelock", m)
 	m.mu.Lock()
 	defer m.mu.Unlock()
 
@@ -95,6 +97,7 @@ func (m *memtable) addWithID(id uint32, vector []float32, text string, metadata 
 		return fmt.Errorf("memtable is frozen")
 	}
 
+	verifPoint("memtable.add.prelock", m)
 	m.mu.Lock()
 	defer m.mu.Unlock()
 
@@ -282,6 +285,7 @@ func (mq *memtableQueue) add(vector []float32, text string, metadata map[string]
 
 	mutable := mq.mutable
 	mq.mu.Unlock()
+	verifPoint("memq.add.picked", mutable)
 
 	return mutable.add(vector, text, metadata)
 }
@@ -297,6 +301,7 @@ func (mq *memtableQueue) addWithID(id uint32, vector []float32, text string, met
 
 	mutable := mq.mutable
 	mq.mu.Unlock()
+	verifPoint("memq.add.picked", mutable)
 
 	return mutable.addWithID(id, vector, text, metadata)
 }
@@ -321,6 +326,7 @@ func (mq *memtableQueue) Rotate() {
 // Must be called with mq.mu held.
 func (mq *memtableQueue) rotateNoLock() {
 	// Freeze the current mutable memtable
+	verifPoint("memq.rotate", mq.mutable)
 	mq.mutable.freeze()
 
 	// Create new mutable memtable
